@@ -261,16 +261,18 @@ def worker(args):
                 state["keep"] = finder
             for k in range(args["searches"] // 4 + 1):
                 r = rng.random()
-                if r < 0.75:
+                if r < 0.72:
                     base = rng.choice(full)
                     t = model.natural(base)
                     s, info = searchgen.make_search(rng, model, vocab, t, allow_last=False, base_segs=base.split("/"),
                                                     pool=names or universe.UNI_NAMES, small=True, p_star=rng.choice([0.15, 0.3, 0.6]))
-                elif r < 0.85:
+                elif r < 0.88:
                     # a typed, non-search Sid: existing or not; sometimes with an alias as last segment
                     base = rng.choice(full) if rng.random() < 0.6 else vocab.valid_string(rng.choice([t for t in model.templates if vocab.usable(t)]), rng, pool=names or universe.UNI_NAMES, small=True)
                     segs = base.split("/")
-                    if aliases and rng.random() < 0.4:
+                    if aliases and rng.random() < 0.5:
+                        if ents and rng.random() < 0.8:
+                            segs = rng.choice(ents).split("/")      # an existing leaf: the alias in its place denotes it and its siblings
                         segs[-1] = rng.choice(aliases)
                     s = "/".join(segs)
                     x = Sid(s)
